@@ -3,6 +3,7 @@ import Proofs.EditsInfer
 import Proofs.EditsSingleRun
 import Proofs.EditsSubhunk
 import Proofs.EmphPaint
+import Proofs.PairThresholds
 /-!
 C06 — within-line emphasis marks exactly what changed between paired lines.
 
@@ -584,5 +585,134 @@ example : paintedLine supRef gitRef .minus true [(false, false), (true, false), 
     .ok [⟨⟨1, false⟩, false⟩, ⟨⟨124, true⟩, false⟩, ⟨⟨1, false⟩, false⟩] := by rfl
 example : paintedLine supRef gitRef .plus true [(false, false), (true, false), (false, true)] =
     .ok [⟨⟨6, false⟩, false⟩, ⟨⟨28, true⟩, false⟩, ⟨⟨9, false⟩, true⟩] := by rfl
+
+end C06
+
+/-! ## from the configured option value to the pairing test: `Config::from`, `get_diff_style_sections`
+
+`infer_edits` is given its two thresholds by its only caller, `get_diff_style_sections` (src/paint.rs), which reads
+them from `Config`; `Config::from` computes them from `--max-line-distance` and from the environment variable
+`DELTA_EXPERIMENTAL_MAX_LINE_DISTANCE_FOR_NAIVELY_PAIRED_LINES`. The argument expressions of the call and the field
+expressions of `Config::from` are regenerated from the source as expression trees
+(`Generated/PairThresholds.lean`) and interpreted by `DeltaModel/PairThresholds.lean` (thresholds as rationals).
+`inferEditsConfigured inp …` is `infer_edits` as a run of delta started with `inp` calls it. -/
+
+namespace C06
+open Align Edits Generated.Align PairThresholds Generated.PairThresholds
+
+/-- **The caller passes the thresholds unchanged.** Whatever the option value and the state of the environment
+variable: `infer_edits` is called with exactly the configured maximum distance, and with the value of the
+environment variable (0 when it is unset or does not parse) as the naive-pairing threshold — no tolerance, no
+scaling, no clamping on the way (`Opt` → `Config::from` → `get_diff_style_sections`). -/
+theorem caller_passes_thresholds_unchanged (inp : Inputs) :
+    effective inp = some (inp.maxLineDistance, naiveOf inp.naiveEnv) :=
+  effective_eq inp
+
+/-- The same as a statement about the `Cfg` of the `infer_edits` model: it carries the configured values, and it
+exists for every non-negative option value. -/
+theorem configured_thresholds_reach_pairing_test (inp : Inputs) (del ins : Edits.Tag) :
+    (∀ cfg, configuredCfg inp del ins = .ok cfg →
+      cfg.del = del ∧ cfg.ins = ins ∧
+      (cfg.maxNum : Int) = inp.maxLineDistance.num ∧ cfg.maxDen = inp.maxLineDistance.den ∧
+      (cfg.naiveNum : Int) = (naiveOf inp.naiveEnv).num ∧ cfg.naiveDen = (naiveOf inp.naiveEnv).den) ∧
+    (0 ≤ inp.maxLineDistance.num → 0 ≤ (naiveOf inp.naiveEnv).num → ∃ cfg, configuredCfg inp del ins = .ok cfg) :=
+  ⟨fun cfg h => configuredCfg_spec inp del ins cfg h, configuredCfg_total inp del ins⟩
+
+-- `--max-line-distance 0.6`, variable unset / set to `0.25` / set to something that is no number
+example : effective ⟨⟨6, 10⟩, .unset⟩ = some (⟨6, 10⟩, ⟨0, 1⟩) := by rfl
+example : effective ⟨⟨6, 10⟩, .value ⟨25, 100⟩⟩ = some (⟨6, 10⟩, ⟨25, 100⟩) := by rfl
+example : effective ⟨⟨0, 1⟩, .unparseable⟩ = some (⟨0, 1⟩, ⟨0, 1⟩) := by rfl
+
+private theorem configured_run (inp : Inputs) (del ins : Edits.Tag) (minus plus : List Line) (nd ni : List Tag)
+    (r : Inferred) (h : inferEditsConfigured inp del ins minus plus nd ni = .ok r) :
+    ∃ cfg, configuredCfg inp del ins = .ok cfg ∧ inferEdits cfg minus plus nd ni = .ok r := by
+  unfold inferEditsConfigured at h
+  split at h
+  · cases h
+  · rename_i cfg hc
+    exact ⟨cfg, hc, h⟩
+
+/-- **Pairing honours the configured maximum distance, end to end.** In a run of delta started with the option
+value `inp.maxLineDistance`, two lines that are paired passed the test with that very value: their distance
+`numer / denom` is at most the configured maximum — or, in a subhunk with as many removed as added lines, at most
+the value of the environment variable. For all lines. -/
+theorem configured_distance_is_honoured_e2e (inp : Inputs) (del ins : Edits.Tag) (minus plus : List Line)
+    (nd ni : List Tag) (r : Inferred) (h : inferEditsConfigured inp del ins minus plus nd ni = .ok r)
+    (i j : Nat) (hij : (some i, some j) ∈ r.alignment) :
+    ∃ ml pl tnd tni a, minus[i]? = some ml ∧ plus[j]? = some pl ∧
+      annotatePair ⟨tnd, del, tni, ins⟩ ml pl = .ok a ∧
+      r.minus[i]? = some a.minus ∧ r.plus[j]? = some a.plus ∧
+      (withinQ false a.numer a.denom inp.maxLineDistance = true ∨
+        (minus.length = plus.length ∧ withinQ false a.numer a.denom (naiveOf inp.naiveEnv) = true)) := by
+  obtain ⟨cfg, hc, hr⟩ := configured_run inp del ins minus plus nd ni r h
+  obtain ⟨hdel, hins, hmn, hmd, hnn, hnd'⟩ := configuredCfg_spec inp del ins cfg hc
+  obtain ⟨ml, pl, tnd, tni, a, h1, h2, h3, h4, h5, h6, h7, h8⟩ :=
+    paired_is_annotate cfg minus plus nd ni r hr i j hij
+  rw [hdel, hins] at h5
+  refine ⟨ml, pl, tnd, tni, a, h1, h2, h5, h6, h7, ?_⟩
+  have hs1 : maxTestStrict = false := by decide
+  have hs2 : naiveTestStrict = false := by decide
+  unfold isHomologousPair at h8
+  rw [hs1, hs2] at h8
+  rw [withinQ_eq false _ _ inp.maxLineDistance cfg.maxNum hmn,
+    withinQ_eq false _ _ (naiveOf inp.naiveEnv) cfg.naiveNum hnn, ← hmd, ← hnd']
+  simp only [Bool.or_eq_true, Bool.and_eq_true, decide_eq_true_eq] at h8
+  rcases h8 with ⟨hl, hw⟩ | hw
+  · exact .inr ⟨hl, hw⟩
+  · exact .inl hw
+
+/-- **With the maximum set to 0 only lines that differ in nothing but whitespace are paired — from the option to
+the pairing decision.** In a run of delta started with `--max-line-distance 0` (any spelling of zero; the
+environment variable unset, unparseable or zero), for all lines: every emphasised section of the removed line of a
+pair is blank after trimming, and so is every emphasised section of the added line (under `WsCons`, as in
+`pairing_distance_zero`). -/
+theorem distance_zero_pairs_only_whitespace_differences_e2e (inp : Inputs) (del ins : Edits.Tag)
+    (h0 : inp.maxLineDistance.num = 0) (hd : 0 < inp.maxLineDistance.den)
+    (hn0 : (naiveOf inp.naiveEnv).num = 0) (hnd0 : 0 < (naiveOf inp.naiveEnv).den)
+    (minus plus : List Line) (nd ni : List Tag) (r : Inferred)
+    (hnd : ∀ tag ∈ nd, tag ≠ del) (hni : ∀ tag ∈ ni, tag ≠ ins)
+    (h : inferEditsConfigured inp del ins minus plus nd ni = .ok r)
+    (i j : Nat) (hij : (some i, some j) ∈ r.alignment) :
+    ∃ secsM secsP, r.minus[i]? = some secsM ∧ r.plus[j]? = some secsP ∧
+      (∀ s ∈ secsM, s.tag = del → trim s.gs = []) ∧
+      ((∀ x y ml pl, minus[i]? = some ml → plus[j]? = some pl → tokenize ml.gs ml.spans = .ok x →
+          tokenize pl.gs pl.spans = .ok y → WsCons x y) →
+        ∀ s ∈ secsP, s.tag = ins → trim s.gs = []) := by
+  obtain ⟨cfg, hc, hr⟩ := configured_run inp del ins minus plus nd ni r h
+  obtain ⟨hdel, hins, hmn, hmd, hnn, hnd'⟩ := configuredCfg_spec inp del ins cfg hc
+  have hmax : cfg.maxNum = 0 := by omega
+  have hnaive : cfg.naiveNum = 0 := by omega
+  obtain ⟨secsM, secsP, hm, hp, h1, h2⟩ :=
+    pairing_distance_zero cfg minus plus nd ni r hmax hnaive (by omega) (by omega)
+      (by rw [hdel]; exact hnd) (by rw [hins]; exact hni) hr i j hij
+  refine ⟨secsM, secsP, hm, hp, ?_, ?_⟩
+  · intro s hs htag
+    exact (h1 s hs (by rw [hdel]; exact htag)).2 (by decide)
+  · intro hw s hs htag
+    exact (h2 hw s hs (by rw [hins]; exact htag)).2 (by decide)
+
+/-- **With the maximum set to 1 (or more) pairs are positional — from the option to the pairing decision.** -/
+theorem distance_one_positional_e2e (inp : Inputs) (del ins : Edits.Tag)
+    (hd : 0 < inp.maxLineDistance.den) (h1 : (inp.maxLineDistance.den : Int) ≤ inp.maxLineDistance.num)
+    (minus plus : List Line) (nd ni : List Tag) (r : Inferred)
+    (h : inferEditsConfigured inp del ins minus plus nd ni = .ok r) :
+    (∀ i j, (some i, some j) ∈ r.alignment → i = j) ∧
+    (∀ i, i < min minus.length plus.length → (some i, some i) ∈ r.alignment) := by
+  obtain ⟨cfg, hc, hr⟩ := configured_run inp del ins minus plus nd ni r h
+  obtain ⟨_, _, hmn, hmd, _, _⟩ := configuredCfg_spec inp del ins cfg hc
+  exact pairing_distance_one cfg minus plus nd ni r (by omega) (by omega) hr
+
+-- `--max-line-distance 0`, environment variable unset: a whitespace-only difference is paired, a one-token
+-- difference is not (the hypotheses of `distance_zero_pairs_only_whitespace_differences_e2e` on concrete lines)
+example : (inferEditsConfigured ⟨⟨0, 1⟩, .unset⟩ 1 3 [lineAB] [lineA__B] [0] [2]).map (·.alignment)
+    = .ok [(some 0, some 0)] := by rfl
+example : (inferEditsConfigured ⟨⟨0, 1⟩, .unset⟩ 1 3 [lineAB] [lineAA] [0] [2]).map (·.alignment)
+    = .ok [(some 0, none), (none, some 0)] := by rfl
+-- `--max-line-distance 0.6`: distance 2/4 is within, the lines are paired
+example : (inferEditsConfigured ⟨⟨6, 10⟩, .unset⟩ 1 3 [lineAB] [lineAA] [0] [2]).map (·.alignment)
+    = .ok [(some 0, some 0)] := by rfl
+-- a negative maximum is outside the model
+example : (inferEditsConfigured ⟨⟨-1, 10⟩, .unset⟩ 1 3 [lineAB] [lineAA] [0] [2]).map (·.alignment)
+    = .error "outside the model: negative threshold" := by rfl
 
 end C06
